@@ -93,6 +93,8 @@ type Sim struct {
 	// crash image.
 	OSHook         func(t *Task, op string, after bool, paths []string) error
 	SplitRemoveAll bool
+	// Procs is what repository code sees as runtime.GOMAXPROCS(0) (0 = real value).
+	Procs int
 
 	Stats      map[string]int
 	Violations []Violation
@@ -106,7 +108,26 @@ var active atomic.Pointer[Sim]
 var (
 	gmu  sync.Mutex
 	gmap = map[uint64]*Task{}
+	// outsiders are goroutines started by repository code while no simulation was
+	// active (e.g. helpers of a build done before the run). They live outside any
+	// bubble and must never be adopted as tasks.
+	outsiders = map[uint64]bool{}
 )
+
+func outside(fn func()) func() {
+	return func() {
+		id := goid()
+		gmu.Lock()
+		outsiders[id] = true
+		gmu.Unlock()
+		defer func() {
+			gmu.Lock()
+			delete(outsiders, id)
+			gmu.Unlock()
+		}()
+		fn()
+	}
+}
 
 func goid() uint64 {
 	var buf [40]byte
@@ -151,11 +172,12 @@ func Cur() *Task {
 	id := goid()
 	gmu.Lock()
 	t := gmap[id]
+	out := outsiders[id]
 	gmu.Unlock()
 	if t != nil {
 		return t
 	}
-	if id == s.schedGoid {
+	if out || id == s.schedGoid {
 		return nil
 	}
 	// adopt
@@ -357,7 +379,7 @@ func Go(site string, fn func()) {
 		if t := Cur(); t != nil && t.dead() {
 			return // leaked task of a finished run: do not spawn
 		}
-		go fn()
+		go outside(fn)()
 		return
 	}
 	s.spawn(s.childLabel(site), fn)
@@ -368,7 +390,7 @@ func Go(site string, fn func()) {
 func WrapF(site string, fn func()) func() {
 	s := active.Load()
 	if s == nil {
-		return fn
+		return outside(fn)
 	}
 	label := s.childLabel(site)
 	return func() {
@@ -386,7 +408,10 @@ func WrapF(site string, fn func()) func() {
 func WrapE(site string, fn func() error) func() error {
 	s := active.Load()
 	if s == nil {
-		return fn
+		return func() (err error) {
+			outside(func() { err = fn() })()
+			return err
+		}
 	}
 	label := s.childLabel(site)
 	return func() (err error) {
